@@ -1,0 +1,28 @@
+//go:build verif
+
+package shaping
+
+import "github.com/go-text/typesetting/di"
+
+// Verification hooks (property C08): re-export the visual ordering helpers of the line wrapper.
+
+// VerifSwapVisualOrder runs swapVisualOrder on line.
+func VerifSwapVisualOrder(line Line) { swapVisualOrder(line) }
+
+// VerifComputeBidiOrdering runs computeBidiOrdering on line.
+func VerifComputeBidiOrdering(dir di.Direction, line Line) { computeBidiOrdering(dir, line) }
+
+// VerifPostProcessLine runs (*LineWrapper).postProcessLine on a wrapper whose state is
+// exactly what that method reads: the configuration, the truncation flag derived from it as
+// in Prepare, the paragraph length and the start of the current line.
+// It returns the method's results followed by the wrapper fields it updates.
+func VerifPostProcessLine(config WrapConfig, totalRunes, lineStartRune int, line Line, done bool) (wl WrappedLine, isDone bool, linesLeft int, more bool) {
+	var l LineWrapper
+	l.config = config
+	l.truncating = config.TruncateAfterLines > 0
+	l.breaker = &breaker{totalRunes: totalRunes}
+	l.lineStartRune = lineStartRune
+	l.more = true
+	wl, isDone = l.postProcessLine(line, done)
+	return wl, isDone, l.config.TruncateAfterLines, l.more
+}
